@@ -187,9 +187,7 @@ def check_text(case, stats):
     if gh.names_existing_path(text):
         stats.label("excluded_known_F1")
         return
-    if "\r" in text.replace("\r\n", ""):
-        stats.label("lone-CR-skipped")
-        return
+    # (a string source is split at LF only: a lone CR is an ordinary - blank - character of its line, also at the start of a line)
     real = gh.parse(text, dflt)
     if real[0] == "ok":
         nloc, hard = slice_check(case, text, real[1])
@@ -232,9 +230,21 @@ def unit_model(a):
     return stats
 
 
+def stray_cr(text):
+    """some documents get carriage returns that are not part of a CR LF pair: LF CR line ends, a CR inside the indentation, before a cell"""
+    k = len(text) % 9
+    if k == 0:
+        return text.replace("\n", "\n\r")
+    if k == 1:
+        return text.replace("\n ", "\n\r ", 3)
+    if k == 2:
+        return text.replace("  ", " \r ", 2).replace("| ", "|\r ", 1)
+    return text
+
+
 def unit_noisy(a):
     stats = Stats()
-    strat = noisy.st_noisy().map(lambda x: {"sub": "text", "text": x[0], "default": x[1], "label": x[2]})
+    strat = noisy.st_noisy().map(lambda x: {"sub": "text", "text": stray_cr(x[0]), "default": x[1], "label": x[2]})
     hyp(stats, strat, check_text, a["n"], shard_seed(a["seed"], a["shard"], 44))
     return stats
 
